@@ -82,6 +82,12 @@ func c08Case(c *core.Ctx, i int) (string, string) {
 			fmt.Fprintf(&b, "    blk%d:num\n", k)
 		}
 		b.WriteString("end\nf\n")
+		// many unused names declared on ONE line (parameters): order within a line matters too
+		b.WriteString("func g")
+		for k := 0; k < 9+r.Intn(3); k++ {
+			fmt.Fprintf(&b, " p%c%d:num", 'a'+rune(r.Intn(26)), k)
+		}
+		b.WriteString("\n    print 1\nend\non down dx:num dy:num\n    print 2\nend\non input iid:string ival:string\n    print 3\nend\n")
 		return b.String(), "unused-variables"
 	case 1: // several type errors and unknown names
 		for k := 0; k < 10; k++ {
@@ -145,6 +151,8 @@ func c08Case(c *core.Ctx, i int) (string, string) {
 			fmt.Fprintf(&b, "b.k%d = %d\n", keys[j], keys[j])
 		}
 		b.WriteString("print a b (a == b) (len a)\ndel a \"k3\"\nfor k := range a\n    print k a[k]\n    del a \"k5\"\nend\nprint (repr a) (a != b)\n")
+		// copies made by the runtime (repetition deep-copies maps, also inside any and nested arrays)
+		b.WriteString("rep := [b] * 2\nprint rep\nfor k := range rep[1]\n    print k\nend\nanys:[]any\nanys = [b [b]]\nrep2 := anys * 2\nprint rep2 (repr rep2)\n")
 		return b.String(), "map-orders"
 	case 6: // random numbers with a seed
 		b.WriteString("for i := range 12\n    print (rand 10) (rand1) (rand 1000000)\nend\n")
